@@ -194,6 +194,10 @@ def write_evidence(pid, ctx, spec, results, known_hits, violations, inconclusive
             "exhaustive": bool(spec.get("exhaustive", True)) and not inconclusive and not build_err,
             "obligations": obligations,
             "discharged": discharged,
+            "harness_obligations_in_queries": sum(r.n_vk for r in results),
+            "implicit_properties_in_queries": obligations - sum(r.n_vk for r in results),
+            "obligations_note": "obligations = properties handed to the solver summed over jobs: the harness obligations (vk: tags; a job's program contains the arms of "
+                                "all skeletons, most of them unreachable in that job) plus the implicit ones (every panic, overflow, bounds and pointer check of the compiled code, std included)",
             "obligation_tags": tags,
             "jobs_by_decider": by_how,
             "checker_cmd": "cargo kani --only-codegen; goto-cc; goto-instrument; cbmc [--smt2]; cvc5 || z3-new (see vk/core.py)",
